@@ -438,6 +438,7 @@ builtin_dirscan(spif_charptr_t param)
     dir = spiftool_get_word(1, param);
     dirp = opendir((char *) dir);
     if (!dirp) {
+        FREE(dir);
         return NULL;
     }
     buff = (spif_charptr_t) MALLOC(CONFIG_BUFF);
@@ -467,6 +468,7 @@ builtin_dirscan(spif_charptr_t param)
         }
     }
     closedir(dirp);
+    FREE(dir);
     return buff;
 }
 
